@@ -631,7 +631,7 @@ impl Prop for C12 {
     }
     fn cases(&self, tier: Tier) -> u64 {
         match tier {
-            Tier::Quick => 120_000,
+            Tier::Quick => 500_000,
             Tier::Thorough => 4_000_000,
         }
     }
